@@ -2,6 +2,13 @@
 C08 — internal force = gradient of the (Donnell / von Kármán) strain energy; tangent = its exact Jacobian.
 Pointwise content of fkL_num, fkG_num, calc_fint REGENERATED from *_num.pyx on every run; Gauss summation is
 linear, so every statement lifts to the sums over integration points (exactness of the rule: C10).
+
+ASSEMBLY LEVEL (last section): `PanelAssembly.calc_kT / calc_fint` as modelled in `Model/Assembly.lean` (`calcK0 true`, `calcFint`:
+panel parts placed at their ranges, `+ k0_conn`, `+ k0_conn · c`; tied to the running code by the recorded-component correspondence of
+`tools/props/C13.py` and the assembly streams of `tools/props/C08.py`).  Helper lemmas: `Spec/AssemblyJacobian.lean`.  The panel-level
+statement enters as a HYPOTHESIS on each panel (its tangent matrix is the derivative of its own internal force w.r.t. its own slice of
+the amplitude vector); `assembly_tangent_is_jacobian_gauss` discharges it with the panel theorems above for panels whose force and
+tangent entries have the Gauss-point form those theorems are stated in (`Spec/AssemblyGauss.lean` says what that form assumes).
 -/
 import CompmechVerif.Spec.NonlinearPoint
 import CompmechVerif.Spec.Jacobian.PlateU
@@ -19,6 +26,8 @@ import CompmechVerif.Core.OpSpecTactics
 import CompmechVerif.Core.OpSpecLemmas
 import Mathlib.Tactic.FinCases
 import Mathlib.Data.Fintype.Basic
+import CompmechVerif.Spec.AssemblyJacobian
+import CompmechVerif.Spec.AssemblyGauss
 
 set_option linter.unnecessarySeqFocus false
 set_option linter.unusedSectionVars false
@@ -305,6 +314,217 @@ theorem kT_is_derivative_gauss_sum_cpanel (pts : List (NCtx ℝ × PtState ℝ))
         + CPanel.fkG_num.entry α β (CPanelNum.withState p.1 p.2)).sum 0 :=
   hasDerivAt_list_sum pts _ _ fun p hp =>
     kT_is_derivative_cpanel p.1 (hpts p hp).1 (hpts p hp).2.1 (hpts p hp).2.2 p.2 α β
+
+end C08
+
+/-! ### assemblies of panels joined by penalty connections
+
+Notation (`Spec/AssemblyJacobian.lean`, all on top of `Model/Assembly.lean`): `ps` the list of `(m, n)` of the panels; `sizeAt ps k = 3 m n`;
+`slice ps k c = c[col_start : col_end]` of panel `k`; `fP k x` the panel's internal force vector and `kP k x` its unfinalized
+(`finalize=False`, upper triangle) tangent COO list at the slice `x`; `asmFint ps fP conns c = calcFint ps (panel forces at c) conns c`;
+`asmKT ps kP conns c = calcK0 true ps (panel tangents at c) conns`; `axpy c t d = c + t d`; `unitVec n j = e_j`; `zeroVec n = 0`. -/
+
+namespace C08
+open Compmech.Asm
+open scoped BigOperators
+
+/-- ASSEMBLED TANGENT = JACOBIAN OF THE ASSEMBLED INTERNAL FORCE, for ANY list of panels (any series orders), ANY list of connections (any
+kernels' results, any order of the two panels), at ANY state `c`, along ANY direction `d`: if for every panel the derivative at `t = 0` of its
+own internal force along its own slice of `d` is its own (finalized) tangent matrix times that slice — the panel-level statement —, then
+`d/dt calc_fint(c + t d)_i |_{t=0} = (calc_kT(c) · d)_i` for every row `i`, where `calc_fint` is "placed panel forces + `k0_conn · c`" and
+`calc_kT` is "finalized placed panel tangents + finalized connection matrix" of the model.  (`hlen`: a panel returns a vector of its own
+size; `hw`: a panel's matrix has no entry outside its own `3 m n × 3 m n` block.) -/
+theorem assembly_tangent_is_jacobian (ps : List (Nat × Nat)) (fP : Nat → List ℝ → List ℝ)
+    (kP : Nat → List ℝ → Coo ℝ) (conns : List (Conn ℝ)) (c d : List ℝ)
+    (hc : c.length = getSize ps) (hd : d.length = getSize ps)
+    (hlen : ∀ k, k < ps.length → ∀ x : List ℝ, x.length = sizeAt ps k → (fP k x).length = sizeAt ps k)
+    (hw : ∀ k, k < ps.length → Within (sizeAt ps k) (sizeAt ps k) (kP k (slice ps k c)))
+    (hP : ∀ k, k < ps.length → ∀ a, a < sizeAt ps k →
+      HasDerivAt (fun t : ℝ => (fP k (axpy (slice ps k c) t (slice ps k d))).getD a 0)
+        (∑ b ∈ Finset.range (sizeAt ps k), toFun (finalize (kP k (slice ps k c))) a b * (slice ps k d).getD b 0) 0)
+    (i : Nat) (hi : i < getSize ps) :
+    HasDerivAt (fun t : ℝ => (asmFint ps fP conns (axpy c t d)).getD i 0)
+      (∑ j ∈ Finset.range (getSize ps), toFun (asmKT ps kP conns c) i j * d.getD j 0) 0 :=
+  assembly_tangent_is_jacobian_aux ps fP kP conns c d hc hd hlen hw hP i hi
+
+/-- the same entry by entry, with the panel hypothesis in the form the panel theorems have (`∂ fint_a / ∂ c_b` = entry `(a, b)` of the panel's
+tangent, `a, b` the panel's own indices): entry `(i, j)` of the assembled tangent is the partial derivative of entry `i` of the assembled
+internal force w.r.t. amplitude `j` — including the pairs `(i, j)` in DIFFERENT panels, where only the connection matrix contributes. -/
+theorem assembly_tangent_entry_is_partial_derivative (ps : List (Nat × Nat)) (fP : Nat → List ℝ → List ℝ)
+    (kP : Nat → List ℝ → Coo ℝ) (conns : List (Conn ℝ)) (c : List ℝ)
+    (hc : c.length = getSize ps)
+    (hlen : ∀ k, k < ps.length → ∀ x : List ℝ, x.length = sizeAt ps k → (fP k x).length = sizeAt ps k)
+    (hw : ∀ k, k < ps.length → Within (sizeAt ps k) (sizeAt ps k) (kP k (slice ps k c)))
+    (hP : ∀ k, k < ps.length → ∀ a b, a < sizeAt ps k → b < sizeAt ps k →
+      HasDerivAt (fun t : ℝ => (fP k (axpy (slice ps k c) t (unitVec (sizeAt ps k) b))).getD a 0)
+        (toFun (finalize (kP k (slice ps k c))) a b) 0)
+    (i j : Nat) (hi : i < getSize ps) (hj : j < getSize ps) :
+    HasDerivAt (fun t : ℝ => (asmFint ps fP conns (axpy c t (unitVec (getSize ps) j))).getD i 0)
+      (toFun (asmKT ps kP conns c) i j) 0 :=
+  assembly_tangent_entry_aux ps fP kP conns c hc hlen hw hP i j hi hj
+
+/-- … with the panel hypothesis DISCHARGED by the panel theorems `kT_is_derivative_gauss_sum_plate / _cpanel`: a mixed assembly of flat
+(`cyl k = false`) and cylindrical (`cyl k = true`) panels whose internal-force and tangent entries are the Gauss sums of the regenerated
+integrands (`PlateGaussPair` / `CPanelGaussPair` of Spec/AssemblyGauss.lean: what is assumed there is the accumulation of the point state
+over the degrees of freedom and the dof map, not any derivative). -/
+theorem assembly_tangent_is_jacobian_gauss (ps : List (Nat × Nat)) (cyl : Nat → Bool) (fP : Nat → List ℝ → List ℝ)
+    (kP : Nat → List ℝ → Coo ℝ) (conns : List (Conn ℝ)) (c : List ℝ)
+    (hc : c.length = getSize ps)
+    (hlen : ∀ k, k < ps.length → ∀ x : List ℝ, x.length = sizeAt ps k → (fP k x).length = sizeAt ps k)
+    (hw : ∀ k, k < ps.length → Within (sizeAt ps k) (sizeAt ps k) (kP k (slice ps k c)))
+    (hG : ∀ k, k < ps.length → ∀ a b, a < sizeAt ps k → b < sizeAt ps k →
+      if cyl k then
+        CPanelGaussPair (fun t : ℝ => (fP k (axpy (slice ps k c) t (unitVec (sizeAt ps k) b))).getD a 0)
+          (toFun (finalize (kP k (slice ps k c))) a b) (fieldOf a) (fieldOf b)
+      else
+        PlateGaussPair (fun t : ℝ => (fP k (axpy (slice ps k c) t (unitVec (sizeAt ps k) b))).getD a 0)
+          (toFun (finalize (kP k (slice ps k c))) a b) (fieldOf a) (fieldOf b))
+    (i j : Nat) (hi : i < getSize ps) (hj : j < getSize ps) :
+    HasDerivAt (fun t : ℝ => (asmFint ps fP conns (axpy c t (unitVec (getSize ps) j))).getD i 0)
+      (toFun (asmKT ps kP conns c) i j) 0 := by
+  refine assembly_tangent_entry_aux ps fP kP conns c hc hlen hw ?_ i j hi hj
+  intro k hk a b ha hb
+  have h := hG k hk a b ha hb
+  by_cases hcyl : cyl k = true
+  · rw [if_pos hcyl] at h
+    obtain ⟨pts, hpts, hf, hkab⟩ := h
+    rw [funext hf, hkab]
+    exact kT_is_derivative_gauss_sum_cpanel pts hpts (fieldOf a) (fieldOf b)
+  · rw [if_neg hcyl] at h
+    obtain ⟨pts, hpts, hf, hkab⟩ := h
+    rw [funext hf, hkab]
+    exact kT_is_derivative_gauss_sum_plate pts hpts (fieldOf a) (fieldOf b)
+
+/-- the assembled tangent is SYMMETRIC at every state, for any panels and connections.  No hypothesis on the panel tangents is needed: the
+model (like the code) takes the upper triangle of the placed panel parts and of the placed connection blocks and mirrors it
+(`finalize_symmetric_matrix`), so each panel's tangent matrix `finalize (kP k x)` — the one the Jacobian hypothesis is about — is symmetric
+by construction (`kT_symm_plate/_cpanel` say that this mirroring loses nothing). -/
+theorem assembly_tangent_symm {K : Type} [Field K] (ps : List (Nat × Nat)) (kP : Nat → List K → Coo K)
+    (conns : List (Conn K)) (c : List K) (i j : Nat) :
+    toFun (asmKT ps kP conns c) i j = toFun (asmKT ps kP conns c) j i :=
+  asmKT_symm ps kP conns c i j
+
+/-- `fint(0) = 0` for the assembly: if every panel's internal force vanishes at the undeformed state (`fint_zero_plate/_cpanel` for the
+integrands), the assembled internal force at `c = 0` is the zero vector — the connection part `k0_conn · 0` vanishes for any connections. -/
+theorem assembly_fint_zero {K : Type} [Field K] (ps : List (Nat × Nat)) (fP : Nat → List K → List K)
+    (conns : List (Conn K))
+    (hz : ∀ k, k < ps.length → fP k (zeroVec (sizeAt ps k)) = zeroVec (sizeAt ps k)) :
+    asmFint ps fP conns (zeroVec (getSize ps)) = zeroVec (getSize ps) :=
+  asmFint_zero_aux ps fP conns hz
+
+/-- LINEAR PART of the assembled internal force: if at the undeformed state every panel's tangent matrix is, entry by entry, its linear stiffness
+`K0_k` (`kL_at_zero_eq_k0_*` and `kG = 0` there) and is the derivative of the panel's force there, then along every direction `d`
+`d/dt calc_fint(t d)_i |_{t=0} = ((K0 + K_conn) d)_i` with `K0 + K_conn = calc_k0()` of the assembly (`calcK0 true` of the panels' linear
+stiffnesses and the same connections): together with `assembly_fint_zero`, `fint(t d) = t (K0 + K_conn) d + o(t)`. -/
+theorem assembly_fint_linear_part (ps : List (Nat × Nat)) (fP : Nat → List ℝ → List ℝ)
+    (kP : Nat → List ℝ → Coo ℝ) (k0P : Nat → Coo ℝ) (conns : List (Conn ℝ)) (d : List ℝ)
+    (hd : d.length = getSize ps)
+    (hlen : ∀ k, k < ps.length → ∀ x : List ℝ, x.length = sizeAt ps k → (fP k x).length = sizeAt ps k)
+    (hw : ∀ k, k < ps.length → Within (sizeAt ps k) (sizeAt ps k) (kP k (zeroVec (sizeAt ps k))))
+    (hw0 : ∀ k, k < ps.length → Within (sizeAt ps k) (sizeAt ps k) (k0P k))
+    (h0 : ∀ k, k < ps.length → ∀ a b, a < sizeAt ps k → b < sizeAt ps k →
+      toFun (finalize (kP k (zeroVec (sizeAt ps k)))) a b = toFun (finalize (k0P k)) a b)
+    (hP : ∀ k, k < ps.length → ∀ a, a < sizeAt ps k →
+      HasDerivAt (fun t : ℝ => (fP k (axpy (zeroVec (sizeAt ps k)) t (slice ps k d))).getD a 0)
+        (∑ b ∈ Finset.range (sizeAt ps k),
+          toFun (finalize (kP k (zeroVec (sizeAt ps k)))) a b * (slice ps k d).getD b 0) 0)
+    (i : Nat) (hi : i < getSize ps) :
+    HasDerivAt (fun t : ℝ => (asmFint ps fP conns (axpy (zeroVec (getSize ps)) t d)).getD i 0)
+      (∑ j ∈ Finset.range (getSize ps),
+        toFun (calcK0 true ps ((List.range ps.length).map k0P) conns) i j * d.getD j 0) 0 :=
+  asmFint_linear_part_aux ps fP kP k0P conns d hd hlen hw hw0 h0 hP i hi
+
+/-- … and exactly, for LINEAR panels (`fint_k(x) = K0_k x`): `calc_fint(c) = (K0 + K_conn) c`, any field. -/
+theorem assembly_fint_linear {K : Type} [Field K] (ps : List (Nat × Nat)) (k0P : Nat → Coo K)
+    (fP : Nat → List K → List K) (conns : List (Conn K)) (c : List K) (hc : c.length = getSize ps)
+    (hw : ∀ k, k < ps.length → Within (sizeAt ps k) (sizeAt ps k) (k0P k))
+    (hlin : ∀ k, k < ps.length → ∀ x : List K, x.length = sizeAt ps k →
+      fP k x = (List.range (sizeAt ps k)).map fun a =>
+        ∑ b ∈ Finset.range (sizeAt ps k), toFun (finalize (k0P k)) a b * x.getD b 0)
+    (i : Nat) (hi : i < getSize ps) :
+    (asmFint ps fP conns c).getD i 0 =
+      ∑ j ∈ Finset.range (getSize ps),
+        toFun (calcK0 true ps ((List.range ps.length).map k0P) conns) i j * c.getD j 0 :=
+  asmFint_linear_aux ps k0P fP conns c hc hw hlin i hi
+
+/-! #### non-vacuity: every hypothesis instantiated (`AsmJacExample` of Spec/AssemblyJacobian.lean)
+
+two panels with `m = n = 1` (three amplitudes each), cubic internal force `fint_a = x_a³ + x_a` with tangent `3 x_a² + 1`, one connection
+listed with `p1` after `p2` -/
+
+open AsmJacExample in
+example (c d : List ℝ) (hc : c.length = 6) (hd : d.length = 6) (i : Nat) (hi : i < 6) :
+    HasDerivAt (fun t : ℝ => (asmFint ps2 cubF conn2 (axpy c t d)).getD i 0)
+      (∑ j ∈ Finset.range 6, toFun (asmKT ps2 cubK conn2 c) i j * d.getD j 0) 0 :=
+  assembly_tangent_is_jacobian ps2 cubF cubK conn2 c d hc hd
+    (fun k hk x hx => cub_len k x _ hx)
+    (fun k hk => by rw [sz k hk]; exact cub_within k _)
+    (fun k hk a ha => by
+      rw [sz k hk] at ha ⊢
+      exact cub_hasDerivAt k _ _ (by rw [length_slice ps2 k hk c hc, length_slice ps2 k hk d hd]) a ha) i hi
+
+open AsmJacExample in
+/-- … and the coupling really is in the assembled tangent: `∂ fint_0 / ∂ c_3 = −2` (amplitude 0 of the first panel, amplitude 0 of the second) -/
+example : toFun (asmKT ps2 cubK conn2 [1, 2, 3, 4, 5, 6]) 0 3 = -2 ∧
+    toFun (asmKT ps2 cubK conn2 [1, 2, 3, 4, 5, 6]) 3 0 = -2 ∧
+    toFun (asmKT ps2 cubK conn2 [1, 2, 3, 4, 5, 6]) 1 1 = 3 * 2 ^ 2 + 1 := by
+  simp only [asmKT, calcK0, calcNoConn, k0Conn, finalize, toFun_append, toFun_makeSymmetric, if_true]
+  norm_num [toFun, placeAll, panelBlocks, panelMats, connAllBlocks, connBlocks, init, initLoop, ps2, conn2, cubK, slice,
+    sizeAt, panelSizes, startOf, Block.placed, shift, transpose, List.range_succ]
+
+open AsmJacExample in
+/-- entry form: the same assembly, partial derivatives -/
+example (c : List ℝ) (hc : c.length = 6) (i j : Nat) (hi : i < 6) (hj : j < 6) :
+    HasDerivAt (fun t : ℝ => (asmFint ps2 cubF conn2 (axpy c t (unitVec 6 j))).getD i 0)
+      (toFun (asmKT ps2 cubK conn2 c) i j) 0 :=
+  assembly_tangent_entry_is_partial_derivative ps2 cubF cubK conn2 c hc
+    (fun k hk x hx => cub_len k x _ hx)
+    (fun k hk => by rw [sz k hk]; exact cub_within k _)
+    (fun k hk a b ha hb => by
+      rw [sz k hk] at ha hb ⊢
+      exact cub_hasDerivAt_unit k _ (by rw [length_slice ps2 k hk c hc, sz k hk]) a b ha hb) i j hi hj
+
+open AsmJacExample in
+/-- `fint(0) = 0` for the connected cubic panels -/
+example : asmFint ps2 cubF conn2 (zeroVec 6) = zeroVec 6 :=
+  assembly_fint_zero ps2 cubF conn2 (fun k _ => cub_zero k _)
+
+open AsmJacExample in
+/-- the linear part of the connected cubic panels: `K0 = identity` on each panel, plus the connection -/
+example (d : List ℝ) (hd : d.length = 6) (i : Nat) (hi : i < 6) :
+    HasDerivAt (fun t : ℝ => (asmFint ps2 cubF conn2 (axpy (zeroVec 6) t d)).getD i 0)
+      (∑ j ∈ Finset.range 6, toFun (calcK0 true ps2 ((List.range 2).map cubK0) conn2) i j * d.getD j 0) 0 :=
+  assembly_fint_linear_part ps2 cubF cubK cubK0 conn2 d hd
+    (fun k hk x hx => cub_len k x _ hx)
+    (fun k hk => by rw [sz k hk]; exact cub_within k _)
+    (fun k hk => by rw [sz k hk]; exact cubK0_within k)
+    (fun k hk a b _ _ => by rw [sz k hk]; exact cubK_zero k a b)
+    (fun k hk a ha => by
+      rw [sz k hk] at ha ⊢
+      exact cub_hasDerivAt k _ _ (by rw [length_zeroVec, length_slice ps2 k hk d hd, sz k hk]) a ha) i hi
+
+open AsmJacExample in
+/-- linear panels joined by the connection: `calc_fint(c) = (K0 + K_conn) c` exactly -/
+example (c : List ℝ) (hc : c.length = 6) (i : Nat) (hi : i < 6) :
+    (asmFint ps2 linF conn2 c).getD i 0 =
+      ∑ j ∈ Finset.range 6, toFun (calcK0 true ps2 ((List.range 2).map cubK0) conn2) i j * c.getD j 0 :=
+  assembly_fint_linear ps2 cubK0 linF conn2 c hc (fun k hk => by rw [sz k hk]; exact cubK0_within k)
+    (fun _ _ _ _ => rfl) i hi
+
+open AsmJacExample AsmGaussExample in
+/-- non-vacuity of `assembly_tangent_is_jacobian_gauss`: two flat panels with `m = n = 1`, each integrated with one point whose state IS
+accumulated from the panel's amplitudes (`AsmGaussExample` of Spec/AssemblyGauss.lean: force vector and tangent list are the regenerated
+integrands at that state), joined by the connection of `AsmJacExample` — every hypothesis, including the Gauss-point form, is proved -/
+example (c : List ℝ) (hc : c.length = 6) (i j : Nat) (hi : i < 6) (hj : j < 6) :
+    HasDerivAt (fun t : ℝ => (asmFint ps2 gF conn2 (axpy c t (unitVec 6 j))).getD i 0)
+      (toFun (asmKT ps2 gK conn2 c) i j) 0 :=
+  assembly_tangent_is_jacobian_gauss ps2 (fun _ => false) gF gK conn2 c hc
+    (fun k hk x _ => by rw [sz k hk]; exact gF_len k x)
+    (fun k hk => by rw [sz k hk]; exact gK_within k _)
+    (fun k hk a b ha hb => by
+      rw [sz k hk] at ha hb ⊢
+      simp only [Bool.false_eq_true, if_false]
+      exact gauss_pair k _ (by rw [length_slice ps2 k hk c hc, sz k hk]) a b ha hb) i j hi hj
 
 end C08
 
